@@ -625,7 +625,7 @@ func TestVF_C19(t *testing.T) {
 		step := vfPick(3, 1)
 		limit := 1300
 		if bi == 1 {
-			step, limit = 1, 420
+			step, limit = 1, 1300
 		}
 		for pos := 0; pos < limit; pos += step {
 			for _, k := range []string{"truncate", "bitflip", "zero", "ff", "set2", "set7"} {
